@@ -25,5 +25,5 @@ def run(ctx):
     return verdict(ctx, "model_checking", {
         "distinct_nontrivial": nontriv,
         "rule": "38 built-in crystals + %d generated triclinic cells x Miller triples in [-%d,%d]^3 (%s) x one seeded (energy 0.1..200 keV incl. 0 and -1, Debye factor incl. negative, relative angle) tuple per triple: %d events; each carries the crystal, d(h), d(-h), d(3h), volume, Bragg angle, Q, atomic factors per distinct Z, structure factors for all 12 valid and 7 invalid flag triples at h and -h, the full and the (000) structure factor. TLC evaluates XrlDiffraction!Relations: metric-tensor volume and d-spacing, inversion and scaling, Bragg's law or error, Q, explicit sum over atoms, additivity, Friedel, (000), invalid-flag errors. non-trivial = events with a defined Bragg angle." % (8 if ctx.quick else 40, 3 if ctx.quick else 6, 3 if ctx.quick else 6, "all" if ctx.quick else "all with |h|,|k|,|l| <= 3, a seeded 20% of the rest", n),
-    }, ["built-in crystals carry single-precision cells and a 6-decimal volume (generator output): geometry compared at 3e-6 for them, 1e-9 for generated cells",
+    }, ["built-in crystals carry single-precision cells and volume (generator output): geometry compared at 1e-6 for them, 1e-9 for generated cells",
         "atomic factors f0, f', f'' are the library's own (Atomic_Factors)"])
